@@ -196,6 +196,16 @@ impl Property for C08 {
     fn assumptions(&self) -> Vec<String> {
         vec!["a watchdog expiry (hang) is reported as inconclusive, never as a violation".into(), "recovery model = the ordered list of (name,value) pairs for which set_preference returned Ok".into()]
     }
+    fn death_trigger(&self, case: &Case) -> Option<String> {
+        // the expression that was current when the process died
+        let last = case.ops.iter().rev().find_map(|(op, _)| if let Op::SetMathml(s) = op { Some(s.clone()) } else { None }).unwrap_or_else(|| case.probe.clone());
+        let tree = parse_xml(&last).ok()?;
+        if pseudo_script_only_row(&tree) {
+            Some("pseudo-script-only-row".to_string())
+        } else {
+            None
+        }
+    }
     fn extra_phases(&self, cfg: &RunCfg, known: &[KnownFinding], stats: &mut Stats) {
         depth_class(cfg, known, stats);
     }
@@ -203,6 +213,16 @@ impl Property for C08 {
 
 // ------------------------------------------------------------------------------------------
 // nesting depth (aborts cannot be caught in-process)
+
+/// a row / wrapper (not the first child of its parent) all of whose children are pseudo-script operators
+/// (primes, quotes, degree, ...): handle_pseudo_scripts then returns the *parent* and clean_mathml recurses forever
+pub fn pseudo_script_only_row(n: &MNode) -> bool {
+    const PS: &[&str] = &["\"", "'", "*", "`", "ª", "°", "²", "³", "´", "¹", "º", "‘", "’", "“", "”", "„", "‟", "′", "″", "‴", "‵", "‶", "‷", "⁗", "''", "'''"];
+    n.any(&|k| {
+        ["mrow", "mstyle", "mpadded", "mfenced", "msqrt", "menclose", "merror", "mtd", "math", "mphantom"].contains(&k.tag.as_str())
+            && k.kids.iter().skip(1).any(|c| ["mrow", "mstyle", "mpadded"].contains(&c.tag.as_str()) && !c.kids.is_empty() && c.kids.iter().all(|t| t.tag == "mo" && PS.contains(&t.txt().trim())))
+    })
+}
 
 pub fn deep_expr(kind: &str, depth: usize) -> String {
     let (open, close): (String, String) = match kind {
@@ -294,7 +314,7 @@ pub fn depth_signature(k: &str, d: usize, outcome: &str) -> Option<String> {
 }
 
 fn depth_class(cfg: &RunCfg, known: &[KnownFinding], stats: &mut Stats) {
-    let depths: Vec<usize> = if cfg.tier == Tier::Quick { vec![10, 100, 400, 1500, 5000] } else { vec![10, 50, 100, 200, 400, 800, 1500, 3000, 5000, 10000, 20000] };
+    let depths: Vec<usize> = if cfg.tier == Tier::Quick { vec![10, 100, 400, 1500] } else { vec![10, 50, 100, 200, 400, 800, 1500, 3000, 5000, 10000, 20000] };
     let jobs: Vec<(String, usize)> = DEPTH_KINDS.iter().flat_map(|k| depths.iter().map(move |d| (k.to_string(), *d))).collect();
     let results: std::sync::Mutex<Vec<(String, usize, String)>> = std::sync::Mutex::new(vec![]);
     let next = std::sync::atomic::AtomicUsize::new(0);
